@@ -18,6 +18,10 @@ Theorem C19_config_independent_refuted_F24_two_stores : ~ config_independent_sta
 Proof. exact config_independent_refuted_F24_two_stores. Qed.
 Print Assumptions C19_config_independent_refuted_F24_two_stores.
 
+Theorem C19_config_independent_refuted_F24_race : ~ config_independent_statement.
+Proof. exact config_independent_refuted_F24_race. Qed.
+Print Assumptions C19_config_independent_refuted_F24_race.
+
 Theorem C19_config_independent_refuted_purge_while_swapped : ~ config_independent_statement.
 Proof. exact config_independent_refuted_purge. Qed.
 Print Assumptions C19_config_independent_refuted_purge_while_swapped.
@@ -37,6 +41,7 @@ Print Assumptions C20_queue_length_refuted.
      - no loader turn PROCEEDS (ring below half the limit, swapped) while a message ahead of lastMemMsgID sits
        unflushed in a store's pending add map (F24);
      - no purge while swapped to disk (F24, second trigger);
+     - no push lands inside a loader turn (label LoaderRace: the loader holds no lock; F24, race);
      - a pop finds the ring empty only when nothing waits on disk (scheduling: consumers are woken by pushes into the
        ring; a pop on an empty ring is not a delivery attempt a client can see);
    and client well-formedness [wf_client] (ids positive and increasing as amqp.GenerateSeq makes them; only delivered,
